@@ -788,7 +788,7 @@ OPS = {
     "table-list-mismatch": op_table_list_mismatch, "loop-problems": op_loop_problems,
 }
 OP_NAMES = sorted(OPS)
-REQUIRED_LABELS = ["op:" + k for k in OP_NAMES] + ["soup:reached-row-loop", "soup:ok", "soup:rejected", "near-valid:ok", "near-valid:rejected"]
+REQUIRED_LABELS = ["op:" + k for k in OP_NAMES] + ["soup:reached-row-loop", "soup:ok", "soup:rejected", "near-valid:ok", "near-valid:rejected", "junk:rejected"]
 
 # the small form on which every operator is also applied, for the shape cross-check
 SHALLOW = {
@@ -810,7 +810,7 @@ SHALLOW = {
 
 @st.composite
 def _cases(draw):
-    which = draw(st.integers(0, 9))
+    which = draw(st.integers(0, 10))
     if which < 7:
         prof = dict(gen.PROFILES["broad"], max_depth=4, p_group=0.22, p_repeat=0.18, p_blank_row=0.12, text="plain", text_ctl=False,
                     p_table_list=0.03, p_params=0.4, p_search=0.0, p_entities=0.1, settings="some", p_extra_sheets=0.0)
@@ -819,7 +819,28 @@ def _cases(draw):
         return {"form": form, "spec": {"op": g.pick(OP_NAMES), "seed": g.integer(0, 65535)}}
     if which == 7:
         return {"soup": build_soup(draw)}
+    if which == 10:
+        return {"junk": build_junk(draw)}
     return {"soup": build_near_valid(draw)}
+
+
+MAGIC = [b"PK\x03\x04", b"\xd0\xcf\x11\xe0\xa1\xb1\x1a\xe1", b"\xef\xbb\xbf", b"\xff\xfe", b"<?xml", b"%PDF-", b"\x00\x00"]
+TEXTY = ["| survey |", "|  | type | name | label |", "| | text | q1 | Q |", "survey", ",type,name,label", ",text,q1,Q", "choices", ",list_name,name,label",
+         "| choices |", "|", ",", "\n", "\r\n", "\t", "# comment", "| settings |", "| | form_id |", "||", "| | |", ",,,,", '"', '"a,b"', "é", "\x00", "|-|-|"]
+
+
+def build_junk(draw):
+    """bytes that are not a workbook, or only almost: the readers are tried in turn and must end in a result or the library's error"""
+    g = gen.G(draw, {})
+    kind = g.pick(["random", "magic", "texty", "texty", "texty"])
+    if kind == "random":
+        data = bytes(g.integer(0, 255) for _ in range(g.integer(0, 200)))
+    elif kind == "magic":
+        data = g.pick(MAGIC) + bytes(g.integer(0, 255) for _ in range(g.integer(0, 120))) + (bytes(600) if g.p("_", 0.3) else b"")
+    else:
+        data = "\n".join(g.pick(TEXTY) for _ in range(g.integer(1, 14))).encode("utf-8")
+    return {"hex": data.hex(), "file_type": g.pick([None, None, ".xlsx", ".xls", ".md", ".csv", ".xlsm", ".txt", ""]),
+            "as": g.pick(["bytes", "bytes", "str"])}
 
 
 def build_near_valid(draw):
@@ -1147,6 +1168,8 @@ def parse_stage_raises(wb, args):
 
 
 def evaluate(case) -> Outcome:
+    if "junk" in case:
+        return eval_junk(case)
     if "soup" in case:
         return eval_soup(case)
     if "broken" in case:
@@ -1154,6 +1177,37 @@ def evaluate(case) -> Outcome:
     if "spec" not in case:
         return eval_plain(case)
     return eval_mutation(case)
+
+
+def eval_junk(case) -> Outcome:
+    from pyxform.xls2xform import convert
+
+    out = Outcome()
+    j = case["junk"]
+    data = bytes.fromhex(j["hex"])
+    arg = data
+    if j.get("as") == "str":
+        try:
+            arg = data.decode("utf-8")
+        except UnicodeDecodeError:
+            arg = data
+        if isinstance(arg, str) and "\x00" in arg:
+            arg = data   # a str with NUL cannot be probed as a path by the OS: deliver the bytes
+    out.checked("C17.no-crash")
+    try:
+        res = convert(arg, file_type=j.get("file_type"))
+        out.label("junk:ok")
+        o2 = Outcome()
+        c01.check_xform(o2, res.xform, {"settings": {"form_id": None}}, "junk")
+        for v in o2.violations:
+            if not v.sig.endswith("form-id"):
+                out.fail("C17.result-wellformed", v.sig.split(":", 1)[-1].split("|")[0][:60] + "|junk", v.msg)
+    except PyXFormError:
+        out.label("junk:rejected")
+    except Exception as e:  # noqa: BLE001
+        out.fail("C17.no-crash", "junk|" + crash_sig(e) + "|" + common.err_class(e)[:50], f"{type(e).__name__}: {e}")
+    out.nontrivial = len(data) > 0
+    return out
 
 
 def eval_plain(case) -> Outcome:
